@@ -53,6 +53,12 @@ def run(ctx, pid):
         c.prefix = pid + c.prefix[3:]
         ex, obs = add_to_ctx(ctx, c, callees)
         n += len(obs)
+    if pid == "C10":
+        from ..contracts import kernels as K
+
+        c, callees = K.ffill_contract()
+        ex, obs = add_to_ctx(ctx, c, callees)
+        n += len(obs)
     c, callees, models = S.dask_groupby_scan_contract()
     c.prefix = pid + c.prefix[3:]
     orig = P.Prims.register_defaults
@@ -73,4 +79,4 @@ def run(ctx, pid):
     return (f"scan_binary_op (both modes, right operand a reduced or a scanned block) and concatenate: {n} obligations "
             "(result = right block combined with the carried value of its own group only; carried state = last valid value per code of left ++ result; "
             "result handed on iff the right operand is a scanned block); "
-            "glue: _zip / chunk_scan / grouped_reduce / _finalize_scan field and argument wiring, dask_groupby_scan protocol (codes first, blueprint handed to all three callables, blelloch prefix over the zipped blocks).")
+            "glue: _zip / chunk_scan / grouped_reduce / _finalize_scan field and argument wiring, dask_groupby_scan protocol (codes first, blueprint handed to all three callables, blelloch prefix over the zipped blocks); the forward-fill kernel aggregate_flox.ffill on sorted codes (running-maximum source index: in range, valid or a run start, in the same run, everything after it masked; four induction lemmas) meets the grouped forward-fill specification that scan_binary_op assumes of it.")
